@@ -34,7 +34,8 @@ PROPS = {
     },
     "C13": {
         "lean": ["PnaVerif.Props.Consts", "PnaVerif.Props.C13", "PnaVerif.Props.C13Entry", "PnaVerif.Props.C04Read"],
-        "families": ["chunk", "parse", "entry", "edit", "concat"],
+        "families": ["chunk", "parse", "entry", "edit", "concat", "split"],
+        "ops": {"split": []},
         "cli": True,
         "trusted": COMMON_TRUST,
         "text": "chunk encode/decode exact inverses (proved); raw items compared chunk for chunk",
@@ -49,7 +50,7 @@ PROPS = {
     },
     "C07": {
         "lean": ["PnaVerif.Props.Consts", "PnaVerif.Props.C07", "PnaVerif.Props.C07Solid"],
-        "families": ["parse", "entry", "codec", "truncate", "foreign", "hostile-solid", "cli-hostile", "cli-tree"],
+        "families": ["parse", "entry", "codec", "truncate", "foreign", "hostile-solid", "cli-hostile", "cli-tree", "cli-truncate"],
         "cli": True,
         "trusted": COMMON_TRUST,
         "text": "no model read path reaches a panic outcome (proved for all inputs); hostile/mutated/truncated streams through the real readers under catch_unwind",
@@ -90,7 +91,8 @@ PROPS = {
     },
     "C04": {
         "lean": ["PnaVerif.Props.Consts", "PnaVerif.Props.C04", "PnaVerif.Props.C04Multipart", "PnaVerif.Props.C04Read"],
-        "families": ["split", "concat"],
+        "families": ["split", "concat", "cli-tree"],
+        "ops": {"cli-tree": []},
         "cli": True,
         "trusted": COMMON_TRUST,
         "text": "size limit, losslessness, termination/rejection proved for all archives and all maxima; split family: every max around the overhead on real archives, parts re-read",
